@@ -55,6 +55,12 @@ func (p *prepared) sourceBytes(it manifest.FileItem) []byte {
 
 // installPrior writes partial output files and matching sidecars, as an interrupted run would have left them.
 func (p *prepared) installPrior(ps priorState, fill byte) error {
+	return p.installPriorChunk(ps, fill, p.x.Chunk)
+}
+
+// installPriorChunk leaves the state of an earlier attempt that used chunk size c: data
+// files holding the marked chunks (other bytes = fill) and metadata marking them.
+func (p *prepared) installPriorChunk(ps priorState, fill byte, c int) error {
 	base := p.baseDirOf()
 	for _, it := range p.fileItems() {
 		marked, ok := ps.Marked[it.RelPath]
@@ -62,7 +68,6 @@ func (p *prepared) installPrior(ps priorState, fill byte) error {
 			continue
 		}
 		src := p.sourceBytes(it)
-		c := p.x.Chunk
 		out := make([]byte, len(src))
 		for i := range out {
 			out[i] = fill
